@@ -894,6 +894,17 @@ func syntacticPure(e *Expr) bool {
 		return true
 	case ECtor:
 		return len(e.Args) == 0
+	case EExt:
+		// a partially applied library function is a value too
+		if sig := extTable[e.Name]; sig == nil || len(e.Args) >= len(sig.Params) {
+			return false
+		}
+		for _, a := range e.Args {
+			if !syntacticPure(a) {
+				return false
+			}
+		}
+		return true
 	}
 	return false
 }
@@ -905,6 +916,10 @@ func effectFree(e *Expr) bool {
 		return true
 	case ECall:
 		if len(e.Args) == e.Arity {
+			return false
+		}
+	case EExt:
+		if sig := extTable[e.Name]; sig == nil || len(e.Args) >= len(sig.Params) {
 			return false
 		}
 	case EBin, EEq, ENeq, ENot, ETuple, ERecord, EField, ECtor, ESlice:
